@@ -1718,11 +1718,14 @@ def _monitor(case: dict, impl: dict) -> list[Violation]:
             return ch
         if o['res'] != 'ok':
             return False
+        old = t.shared.get(op[1])
         if k == 'unshare':
             t.shared.pop(op[1], None)
         else:
             t.shared[op[1]] = (op[2], list(op[3]))
-        return True
+        # a call that leaves mode and users as they were is not a change of the shared directories (whether the code
+        # announces it all the same is its own business)
+        return t.shared.get(op[1]) != old
 
     def reconcile_violation(sig, what, observed, required):
         if flipped:
